@@ -266,14 +266,23 @@ def generate(rng, tier, index):
         # the schema (and every fresh copy of it) is obtained through
         # ZConfig.loadSchema(url) instead of from its text
         plan["schema_by_url"] = rng.random() < 0.35
+        # ... or from a stream that has no URL at all (the positions the
+        # schema remembers for its defaults then have none either)
+        plan["schema_nourl"] = (not plan["schema_by_url"]
+                                and rng.random() < 0.3)
     return plan
+
+
+def _schema_url(plan):
+    return None if plan.get("schema_nourl") else scenarios.SCHEMA_URL
 
 
 def _generate(rng, tier, index):
     if rng.random() < 0.12:
         return generate_logger(rng, tier, index)
     sc = scenarios.config_scenario(rng, {"imports": 0.6, "callbacks": True,
-                                         "handlers": False})
+                                         "handlers": False,
+                                         "comp_src": 0.3})
     ir = sc["ir"]
     texts = [{"res": TF.res_texts(sc["uni"]), "top": sc["top"]}]
     unis = [sc["uni"]]
@@ -302,7 +311,7 @@ def _generate(rng, tier, index):
         rng.shuffle(cand)
         injs.append(cand[:6])
     ctypes = sorted(t["name"] for t in ir["types"]
-                    if t["name"].startswith(("pt", "px")))
+                    if t["name"].startswith(("pt", "px", "ps")))
     history = []
     n = rng.randint(1, 8)
     last_was_load = False
@@ -356,8 +365,29 @@ def _generate(rng, tier, index):
                     "pkg_fault": {"zcsim_pdt": "pkg-import-error"}},
                    {"op": "load", "text": 0, "entry": "url", "inj": None,
                     "overrides": [], "fault": None}] + history[:6]
+    srcv = sc.get("src_versions") or {}
+    if srcv and "<import" not in sc["schema_xml"] and rng.random() < 0.8 \
+            and any(h["op"] == "load" for h in history):
+        # a schema file that a COMPONENT pulls in (<import src=.../>) is
+        # edited between two loads that %import the component: nothing the
+        # first load read may be served to the second one
+        url = sorted(srcv)[0]
+        loads = [k for k, h in enumerate(history) if h["op"] == "load"]
+        load_ops = [history[k] for k in loads]
+        at = rng.choice(loads[1:] or [len(history)])
+        history.insert(at, {"op": "rewrite-src", "url": url, "edition": 1})
+        def again():
+            op_ = json.loads(json.dumps(rng.choice(load_ops)))
+            op_.pop("pkg_fault", None)    # (only the first load has it)
+            return op_
+        if at == len(history) - 1:
+            history.append(again())
+        if rng.random() < 0.3:
+            history.append({"op": "rewrite-src", "url": url, "edition": 0})
+            history.append(again())
     return {"prop": ID, "schema_xml": sc["schema_xml"],
             "packages": sc["packages"], "pkgfiles": sc["pkgfiles"],
+            "src_versions": srcv,
             "ctypes": ctypes, "texts": texts, "ops": history}
 
 
@@ -367,7 +397,7 @@ def ir_without_components(ir, sc):
         return ir
     out = dict(ir)
     out["types"] = [t for t in ir["types"]
-                    if not t["name"].startswith(("pt", "px"))]
+                    if not t["name"].startswith(("pt", "px", "ps"))]
     return out
 
 
@@ -413,6 +443,11 @@ def _store_for(plan, op):
     return st, t["top"]
 
 
+def _edition(w):
+    """Current text of the schema files that 'rewrite-src' steps edit."""
+    return getattr(w, "src_overlay", None) or {}
+
+
 def _resolve_fault(f, counts):
     if not f:
         return []
@@ -440,6 +475,7 @@ def _resolve_fault(f, counts):
 
 def _load(w, schema, plan, op, faults, name):
     store, top = _store_for(plan, op)
+    store.update(_edition(w))
     w.store = store
     w.begin_op(name, faults)
     w.pkg_faults = dict(op.get("pkg_fault") or {})
@@ -505,7 +541,7 @@ def _fresh_schema(w, plan):
             w.store = saved
     else:
         so = ops.schema_outcome(lambda: ops.load_schema_text(
-            plan["schema_xml"], scenarios.SCHEMA_URL))
+            plan["schema_xml"], _schema_url(plan)))
     w.end_op("ok" if so["ok"] else so["cls"])
     return so
 
@@ -732,7 +768,7 @@ def execute(plan):
         else:
             w.begin_op("hist-schema")
             so = ops.schema_outcome(lambda: ops.load_schema_text(
-                plan["schema_xml"], scenarios.SCHEMA_URL, hist_loader))
+                plan["schema_xml"], _schema_url(plan), hist_loader))
             w.end_op("ok" if so["ok"] else so["cls"])
         if not so["ok"]:
             out["waste"] += 1
@@ -761,11 +797,22 @@ def execute(plan):
                     probe("containers-mutated", c[0])
                     interesting = True
                 out["log"].append("step %d mutate" % step)
+            elif op["op"] == "rewrite-src":
+                w.src_overlay = dict(_edition(w))
+                w.src_overlay[op["url"]] = \
+                    plan["src_versions"][op["url"]][op["edition"]]
+                w.store = dict(w.store)
+                w.store.update(w.src_overlay)
+                seen.clear()          # the same load now reads another file
+                probe("component-src-file-rewritten")
+                out["log"].append("step %d rewrite-src" % step)
+                continue
             elif op["op"] == "reload-schema":
                 w.store = dict(plan["pkgfiles"])
+                w.store.update(_edition(w))
                 w.begin_op("reload-schema")
                 ro = ops.schema_outcome(lambda: ops.load_schema_text(
-                    plan["schema_xml"], scenarios.SCHEMA_URL, hist_loader))
+                    plan["schema_xml"], _schema_url(plan), hist_loader))
                 w.end_op("ok" if ro["ok"] else ro["cls"])
                 out["evaluations"] += 1
                 if not ro["ok"]:
